@@ -21,6 +21,13 @@ region without circuit / before the session is claimed (both directions, incl. a
 makes it look like a SOCKS header: same-IP shortcut); UseCircuitCode with an unknown session id; SOCKS header with frag!=0,
 rsv!=0, atyp 0/3/4; SOCKS datagram cut after 0/3/7/9 bytes; LLUDP header of 0/6 bytes; unknown message number; UDP-banned
 template inbound; body truncated (inspected and never-inspected message, both directions).
+Environment faults (deviation 1): ("e_oserr", i, errno) = asyncio reporting a socket error to association i through
+``protocol.error_received`` (EMSGSIZE / ECONNREFUSED in the BFS menu, plus EINVAL / ENETUNREACH in the interleaving and
+repetition families); ("so_big", i, j) = the natural trigger: a valid 65500-byte LayerData from sim_j that the capturing
+socket refuses with EMSGSIZE once the SOCKS header is added (hmc.udpharness.CapSock mimics _SelectorDatagramTransport:
+OSError from sendto goes to error_received, nothing is raised).  Oracle: no sendto, session / circuit / association
+state unchanged (fault-zero-sends, fault-state-unchanged; for so_big exactly one refused sendto to the right viewer and
+unchanged liveness), later valid datagrams delivered exactly once.  connection_lost is outside the statement.
 Packet ids come from per-circuit per-direction counters in the model (they are part of canon; finiteness is by depth).
 
 Oracle (one clause per sentence of the statement):
@@ -120,6 +127,22 @@ def _template_msg(name: str, pid: int, flags: int = 0) -> bytes:
     return U.serialize(g.lib_message(case))
 
 
+def _is_deviation(ev) -> bool:
+    return ev[0].startswith("g_") or ev[0] in ("e_oserr", "so_big")
+
+
+def liveness(st):
+    """Projection of World.session_state that no datagram -- deliverable or not -- and no socket error may change."""
+    pending, which, regs, _main, _grp, n_sessions, closed, task_done = st
+    return (pending, which, tuple(r[:3] for r in regs), n_sessions, closed, task_done)
+
+
+def big_layer_data(pid: int) -> bytes:
+    """A valid 65500-byte LayerData (fits one UDP datagram; wrapped with the 10-byte SOCKS header it does not)."""
+    return U.serialize(Message("LayerData", Block("LayerID", Type=0x4C), Block("LayerData", Data=b"\x5a" * 65490),
+                               packet_id=pid, flags=0, direction=Direction.IN))
+
+
 class Model:
     """Reference model: which associations claimed their session, which (association, region) circuits are open,
     per-circuit per-direction packet-id counters."""
@@ -192,6 +215,7 @@ class Harness:
         evs = []
         for i in range(self.n):
             evs += [("g_foreign", i), ("g_unreg", i), ("g_ucc_unreg", i)]
+            evs += [("e_oserr", i, name) for name in ("EMSGSIZE", "ECONNREFUSED")]
             evs += [("g_sock", i, v) for v in ("frag", "rsv", "atyp0", "atyp3", "atyp4")]
             evs += [("g_trunc", i, n) for n in (0, 3, 7, 9)]
             evs += [("g_short", i, n) for n in (0, 6)]
@@ -206,11 +230,18 @@ class Harness:
                             ("g_tbody_in", i, j, "inspected"), ("g_tbody_in", i, j, "opaque")]
         return evs
 
+    def fault_events(self, m: Model):
+        """Environment faults beyond the BFS menu: every errno, and the natural trigger (an inbound datagram that is valid
+        but, once the 10-byte SOCKS header is added, above the UDP maximum: the socket refuses it with EMSGSIZE)."""
+        evs = [("e_oserr", i, name) for i in range(self.n) for name in ("EMSGSIZE", "EINVAL", "ENETUNREACH", "ECONNREFUSED")]
+        evs += [("so_big", i, j) for (i, j) in sorted(m.open) if m.alive(i, j)]
+        return evs
+
     def enabled(self, w):
         return self.valid_events(w.model) + self.garbage_events(w.model)
 
     def deviation(self, ev) -> int:
-        return 1 if ev[0].startswith("g_") else 0
+        return 1 if _is_deviation(ev) else 0
 
     def canon(self, w):
         return (tuple(w.session_state(i) for i in range(self.n)), tuple(w.learned(i) for i in range(self.n)),
@@ -222,7 +253,7 @@ class Harness:
     def nontrivial(self, w, hist):
         seen_garbage = False
         for ev in hist:
-            if ev[0].startswith("g_"):
+            if _is_deviation(ev):
                 seen_garbage = True
             elif seen_garbage:
                 return ("valid-after-garbage", tuple(tuple(e) for e in hist))
@@ -276,6 +307,12 @@ class Harness:
             flags, acks = (0, ()) if k == "so" else (0x50, (m.last(i, j, OUT), 7))
             sim(_chat_in(i, m.take(i, j, IN), flags, acks), U.SIMS[j])
             d.update(cls="valid", dir=IN, j=j, site="in:" + ("ordinary" if k == "so" else "reliable+acks"))
+        elif k == "so_big":
+            j = ev[2]
+            sim(big_layer_data(m.take(i, j, IN)), U.SIMS[j])
+            d.update(cls="oversize", dir=IN, j=j)
+        elif k == "e_oserr":
+            d.update(cls="fault", data=b"", src=None, lludp=b"")
         elif k == "g_foreign":
             sim(_chat_in(i, GARBAGE_PID, 0x40), U.FOREIGN_HOST)
         elif k == "g_unreg":
@@ -347,7 +384,14 @@ class Harness:
         d = self.build(w, ev)
         i = d["assoc"]
         before = tuple(w.session_state(x) for x in range(self.n))
-        sends, exc = w.deliver(i, d["data"], d["src"])
+        n_refused = len(w.refused)
+        if d["cls"] == "fault":
+            import errno
+            import os
+            code = getattr(errno, ev[2])
+            sends, exc = w.os_error(i, OSError(code, os.strerror(code)))
+        else:
+            sends, exc = w.deliver(i, d["data"], d["src"])
         after = tuple(w.session_state(x) for x in range(self.n))
         exn = type(exc).__name__ if exc is not None else None
         w.last = (ev[0], ev[2] if len(ev) > 2 and isinstance(ev[2], str) else "", len(sends), exn)
@@ -355,7 +399,23 @@ class Harness:
         def bad(clause, site, detail):
             w.violations.append({"clause": clause, "site": site, "detail": detail})
 
-        if d["cls"] == "valid":
+        if d["cls"] == "fault":
+            site = "fault:error_received:" + ev[2]
+            if sends or exc is not None:
+                bad("fault-zero-sends", site, f"socket error reported to association {i}: {len(sends)} sendto, exception {exc!r}")
+            if before != after:
+                bad("fault-state-unchanged", site, f"a socket error on association {i} changed session/circuit/association state: "
+                                                   f"before={before!r} after={after!r}")
+        elif d["cls"] == "oversize":
+            site = "fault:sendto-EMSGSIZE:in:LayerData"
+            refused = w.refused[n_refused:]
+            if sends or len(refused) != 1 or refused[0][0] != i or refused[0][2] != U.VIEWERS[i]:
+                bad("exactly-once", site, f"valid {len(d['lludp'])}-byte datagram: expected exactly one (refused) sendto to {U.VIEWERS[i]}, "
+                                          f"got sends={[(a, len(x), addr) for a, x, addr in sends]} refused={refused} exception={exn}")
+            if tuple(liveness(x) for x in before) != tuple(liveness(x) for x in after):
+                bad("fault-state-unchanged", site, f"an undeliverable datagram (EMSGSIZE) changed session/association liveness: "
+                                                   f"before={[liveness(x) for x in before]!r} after={[liveness(x) for x in after]!r}")
+        elif d["cls"] == "valid":
             check_valid(bad, i, d["j"], d["dir"], d["lludp"], sends, exn, d["site"])
             if ev[0] == "U":
                 j = ev[2]
@@ -628,6 +688,10 @@ def _types_worker(item):
 def _is_enabled(h, w, ev) -> bool:
     if ev[0] == "g_flood":
         return True
+    if ev[0] == "e_oserr":
+        return True
+    if ev[0] == "so_big":
+        return w.model.alive(ev[1], ev[2])
     if ev[0] == "g_banned_in" and len(ev) == 4:
         return ev[:3] in h.enabled(w)
     return ev in h.enabled(w)
@@ -693,7 +757,7 @@ def repeated_garbage(base: str):
     be discarded -- 'the first one was rejected' must not teach the proxy anything."""
     h = Harness(2, base)
     m = h.fresh().model
-    gs = list(h.garbage_events(m))
+    gs = list(h.garbage_events(m)) + [f for f in h.fault_events(m) if f not in h.garbage_events(m)]
     for (i, j) in sorted(m.open):
         gs += [("g_banned_in", i, j, name) for name in _BANNED]
     vs = h.valid_events(m)
@@ -710,7 +774,7 @@ def interleavings(base: str):
     h = Harness(2, base)
     w = h.fresh()
     vs = h.valid_events(w.model)
-    gs = h.garbage_events(w.model)
+    gs = h.garbage_events(w.model) + [f for f in h.fault_events(w.model) if f not in h.garbage_events(w.model)]
     for g_ev in gs:
         for v in vs:
             yield (base, (g_ev, v))
